@@ -232,7 +232,7 @@ func checkC12(c *Ctx, r *Report) {
 				}
 				k2 := fname(f) + ":dispatch-after-successful-transform"
 				ok2 := false
-				for _, cf := range condFacts(i2.Block()) {
+				for _, cf := range normFacts(condFacts(i2.Block())) {
 					if bo, ok := cf.Cond.(*ssa.BinOp); ok && bo.X == errV && isNilConst(bo.Y) && ((bo.Op == token.NEQ && !cf.True) || (bo.Op == token.EQL && cf.True)) {
 						ok2 = true
 					}
@@ -252,7 +252,7 @@ func checkC12(c *Ctx, r *Report) {
 					return
 				}
 				st, _ := constInt(cc.Args[len(cc.Args)-1])
-				for _, cf := range condFacts(i2.Block()) {
+				for _, cf := range normFacts(condFacts(i2.Block())) {
 					if bo, ok := cf.Cond.(*ssa.BinOp); ok && bo.X == errV && bo.Op == token.NEQ && cf.True && st == 400 {
 						found = true
 					}
@@ -484,7 +484,7 @@ func errGuardReturns(c, next ssa.Instruction) bool {
 	if !ok {
 		return false
 	}
-	for _, cf := range condFacts(next.Block()) {
+	for _, cf := range normFacts(condFacts(next.Block())) {
 		if bo, ok := cf.Cond.(*ssa.BinOp); ok && bo.X == v && isNilConst(bo.Y) {
 			if (bo.Op == token.NEQ && !cf.True) || (bo.Op == token.EQL && cf.True) {
 				return true
